@@ -75,6 +75,20 @@ func c17stress(args []string) {
 `, st.M, p, p, p)
 			}
 			fmt.Fprintf(&src, "(dotimes (i %d) (channel-pop fin))\n", st.N)
+		case "mutexnest":
+			// routines started, and a closure made, while the main routine holds the mutex take the same mutex: holding a
+			// mutex belongs to a routine, not to the place in the program text. Every critical section reads the counter,
+			// waits and writes it back, so that two sections that overlap lose an update. x = 1 + 2 n m
+			fmt.Fprintf(&src, "(setq mu (make-mutex)) (setq xcnt 0) (setq fin (make-channel %d)) (setq crit nil)\n", st.N)
+			fmt.Fprintf(&src, "(with-mutex-lock mu\n  (setq crit (lambda () (with-mutex-lock mu (let ((v xcnt)) (sleep 0.001) (setq xcnt (+ v 1))))))\n")
+			for p := 1; p <= st.N; p++ {
+				fmt.Fprintf(&src, "  (run (progn (dotimes (i %d) (with-mutex-lock mu (let ((v xcnt)) (sleep 0.001) (setq xcnt (+ v 1))))) (channel-push fin %d)))\n", st.M, p)
+			}
+			fmt.Fprintf(&src, "  (let ((v xcnt)) (sleep 0.03) (setq xcnt (+ v 1))))\n(dotimes (i %d) (channel-pop fin))\n", st.N)
+			for p := 1; p <= st.N; p++ {
+				fmt.Fprintf(&src, "(run (progn (dotimes (i %d) (funcall crit)) (channel-push fin %d)))\n", st.M, p)
+			}
+			fmt.Fprintf(&src, "(dotimes (i %d) (channel-pop fin))\n", st.N)
 		case "syncinst":
 			slots := make([]string, st.N)
 			for k := range slots {
@@ -209,7 +223,7 @@ func c17stress(args []string) {
 				got = append(got, c17sPairs(h.Eval(s, fmt.Sprintf("got%d", c)).Val))
 			}
 			ev["got"] = got
-		case "mutex":
+		case "mutex", "mutexnest":
 			if f, ok := h.Eval(s, "xcnt").Val.(slip.Fixnum); ok {
 				ev["x"] = int(f)
 			}
